@@ -23,9 +23,9 @@ import (
 // eviction logic can also be run at small capacities.
 var tssCapV = tssCap
 
-func VerifTSSCap() int      { return tssCap }
-func VerifSetTSSCap(n int)  { tssCapV = n }
-func VerifTSSItemCap() int  { return tssItemCap }
+func VerifTSSCap() int     { return tssCap }
+func VerifSetTSSCap(n int) { tssCapV = n }
+func VerifTSSItemCap() int { return tssItemCap }
 
 // VerifResetTSS empties the timestamp store (between runs).
 func VerifResetTSS() {
